@@ -20,7 +20,13 @@ Record case := {
   c_parts : list (N * obs_part);           (* Participation, sorted by relay *)
   c_elapsed : Z;                           (* fake ms between call and return *)
   c_served : list (option N);              (* answers of the blockrelay BuilderBid calls: uid or no bid *)
-  c_calls : list (Z * N * N)               (* mock log: (time, relay, call) of every answered call, by (time, relay) *)
+  c_calls : list (Z * N * N);              (* relay-side log: (instant the relay's answer was ready = arrival of the
+                                              request + scripted latency, relay, call) of every request a relay
+                                              answers, by (time, relay) -- whether or not vouch still held the line *)
+  c_dropped : list (Z * N * N);            (* the entries of c_calls whose request vouch had aborted (context ended)
+                                              before the answer was ready: the answer never reached vouch *)
+  c_stuck : bool                           (* goroutines of the call were still blocked, for good, after the call had
+                                              returned and every mock had been released *)
 }.
 
 Definition obs_part_eqb (a b : obs_part) : bool :=
@@ -53,8 +59,10 @@ Definition agree (c : case) : bool :=
   let s := c_strat c in
   let rs := c_relays c in
   let runs := strategy_runs c in
-  negb (c_panic c)
+  negb (c_panic c) && negb (c_stuck c)
   && list_eqb call_eqb (if runs then calls_before s rs else []) (calls_before_obs c)
+  (* no request is aborted by vouch while its answer would still be in time *)
+  && forallb (fun '(t, _, _) => (cutoff s <=? t)%Z) (c_dropped c)
   && (c_elapsed c =? (if runs then elapsed s rs else 0))%Z
   && (if c_has_results c then list_eqb N.eqb (if runs then all_providers s rs else []) (c_allp c) else true)
   && existsb (fun ord =>
@@ -65,13 +73,14 @@ Definition agree (c : case) : bool :=
 
 (* ------------------------------------------------------------------------------------------ *)
 (* The property on the OBSERVED output alone.  Candidates: the bids that, by the mocks' own log,
-   reached vouch before the strategy's cut-off (hard timeout / deadline) and are eligible at their
+   a relay had ready for vouch before the strategy's cut-off (hard timeout / deadline) -- delivered, or
+   not delivered only because vouch had hung up -- and that are eligible at their
    relay (value >= minimum, non-zero value and fee recipient, timestamp = slot start, signature
    valid under the relay's known key).  The model's collector is not consulted. *)
 
 Definition find_relay (i : N) (rs : list relay) : option relay := find (fun r => r_idx r =? i) rs.
 
-Definition cands (c : case) : list (N * bid) :=
+Definition log_cands (c : case) : list (N * bid) :=
   flat_map (fun '(t, i, k) =>
               if (t <? cutoff (c_strat c))%Z then
                 match find_relay i (c_relays c) with
@@ -83,6 +92,21 @@ Definition cands (c : case) : list (N * bid) :=
                 | None => []
                 end
               else []) (c_calls c).
+
+(* Candidates that do not depend on what vouch chose to do: a configured relay that supplies bids
+   and can unblind must be asked once its grace period is over (both strategies), so the answer
+   scripted for its first call is ready at grace + latency; if that is before the cut-off and the
+   bid is eligible, it is a bid that "arrived before the strategy's deadline" -- also when vouch
+   never asked, or hung up early. *)
+Definition first_cands (c : case) : list (N * bid) :=
+  flat_map (fun r =>
+              match r_kind r, r_script r with
+              | KFull, (lat, RBid b) :: _ =>
+                  if (r_grace r + lat <? cutoff (c_strat c))%Z && eligible r b then [(r_idx r, b)] else []
+              | _, _ => []
+              end) (c_relays c).
+
+Definition cands (c : case) : list (N * bid) := log_cands c ++ first_cands c.
 
 Definition scoring (cfgs : bconfs) (rb : N * bid) : bool := negb (score cfgs (snd rb) =? 0)%Z.
 
